@@ -92,13 +92,22 @@ def ingest(wt, sid):
         shutil.rmtree(d0, ignore_errors=True)
 
 
-def run_one(sid, in_repo=False, budget='45'):
+def run_one(sid, in_repo=False, budget='45', passes=None):
+    """First the main pass alone (fast); only if that misses, the full check with the passes under other
+    interpreter configurations and with the second caller thread."""
+    if passes is None and not os.environ.get('VERIF_NO_ENVPASS'):
+        st = run_one(sid, in_repo, budget, passes=False)
+        if st == 'caught':
+            return st
+        return run_one(sid, in_repo, budget, passes=True)
     dst = os.path.join(SEEDED, sid)
     meta = json.load(open(os.path.join(dst, 'meta.json')))
     prop = meta['property']
     patch = open(os.path.join(dst, 'patch.diff')).read()
     env = dict(os.environ)
     env['VERIF_BUDGET_S'] = budget
+    if passes is False:
+        env['VERIF_NO_ENVPASS'] = '1'
     t0 = time.time()
     if in_repo:
         st = subprocess.run(['git', '-C', '/repo', 'status', '--porcelain'], capture_output=True, text=True).stdout.strip()
@@ -132,7 +141,10 @@ def run_one(sid, in_repo=False, budget='45'):
             shutil.rmtree(d, ignore_errors=True)
     clauses = re.findall(r'violated clause (\S+): (.*)', r.stdout)
     status = 'caught' if r.returncode == 1 and 'VIOLATION property=%s' % prop in r.stdout else ('missed' if r.returncode == 0 else 'harness-error')
-    meta['check_result'] = {'status': status, 'mode': 'git apply on /repo' if in_repo else 'scratch copy via VERIF_REPO', 'clauses': [c for c, _ in clauses],
+    if passes is False and status != 'caught':
+        return status          # decided by the full run that follows
+    meta['check_result'] = {'status': status, 'mode': 'git apply on /repo' if in_repo else 'scratch copy via VERIF_REPO', 'clauses': sorted(set(c for c, _ in clauses)),
+                            'needed': 'main pass' if passes is False else 'a pass under another interpreter configuration or with a second caller thread' if status == 'caught' and passes else '',
                             'first_message': clauses[0][1][:300] if clauses else (r.stderr[-300:] if status == 'harness-error' else ''),
                             'seconds': round(time.time() - t0, 1)}
     json.dump(meta, open(os.path.join(dst, 'meta.json'), 'w'), indent=1)
